@@ -10,24 +10,18 @@ private def fmtR {α} (f : α → String) : R α → String
   | .ok a => f a
   | .error e => fmtErr e
 
-/-- the searcher as the harness observed it for this request (`-`: it was not asked / printed nothing);
-an answer that is not legal in the position the *model* engine holds, or no answer on a live position, is
-a broken searcher contract (C04) and is made visible -/
-private def oracleSearch (basis : Array W) (oracle : String) : Nat → Pos → Option Int → SearchRes :=
-  fun _ pos _ =>
-    let broken : SearchRes := { depth := 0, elapsedMs := 0, nodes := 0, val := 0, pv := [sentinel] }
+/-- the searcher as the harness observed it for this request (`-`: it was not asked / printed nothing).
+The answer is taken as it is: whether it is legal is the searcher's contract (C04, checked on the engine
+side by the `tei` ops); here the client has to hand on whatever the engine printed, and the legality of the
+returned move *in the caller's position* is reported next to it by both sides (`legal=`). -/
+private def oracleSearch (_basis : Array W) (oracle : String) : Nat → Pos → Option Int → SearchRes :=
+  fun _ _ _ =>
     match (if oracle == "-" then none else parseOracle oracle) with
-    | some r =>
-      match r.pv with
-      | m :: _ => if !(pos.apply basis m).isOk then broken else r
-      | [] => r
-    | none =>
-      if !pos.gameOver.1 then broken
-      else { depth := 0, elapsedMs := 0, nodes := 0, val := 0, pv := [] }
+    | some r => r
+    | none => { depth := 0, elapsedMs := 0, nodes := 0, val := 0, pv := [] }
 
 private def clientEnv (basis : Array W) (oracle : String) : Env :=
-  let e := realEnv basis (oracleSearch basis oracle)
-  { e with fmtMove := fun m => if m.type == 255 then "<searcher-contract-broken>" else e.fmtMove m }
+  realEnv basis (oracleSearch basis oracle)
 
 private def parseTC (s : String) : Option (Option TimeControl) :=
   if s == "-" then some none else
@@ -76,13 +70,18 @@ private def clStep (basis : Array W) (s : ClSess) (step : String) : Option ClSes
         | none => some { s with out := s.out ++ ["no-player"] }
         | some player =>
           let (c, r) := teiGetMove (serverPeer (clientEnv basis oracle)) c0 player pos rem tc
-          let res := match r with | .ok m => "ok " ++ fmtMove m | .error e => fmtErr e
+          let res := match r with
+            | .ok m => "ok " ++ fmtMove m ++ " legal=" ++ (if (pos.apply basis m).isOk then "1" else "0")
+            | .error e => fmtErr e
           let stopped := res.endsWith "panic" || res.endsWith "hang"
           let same :=
             if stopped || !c.alive then "-" else
             match c.eng.st.pos with
             | none => "-"
             | some q => if fmtPos q == fmtPos pos then "1" else "0"
+          -- C17 itself: when the engine held exactly the caller's position, the move it names must be legal there
+          -- (searcher contract, C04); the model does not reproduce an illegal answer, so the lines differ
+          let res := if same == "1" && res.endsWith "legal=0" then res ++ " <searcher-contract-broken>" else res
           some { s with conn := c, out := s.out ++ [stepOut c res same], stopped := stopped }
       | _, _, _, _ => none
     | _ => none
